@@ -480,10 +480,14 @@ def kill_worker(item):
     seen, viol = set(), []
     key = runs.cfg_key(cfg)
     for k_, d in r["errs"]:
-        if r.get("from_mid_iteration"):
+        if r.get("from_mid_iteration") and k_ == "len(insertion_indices)!=iteration":
             # one underlying history: a leg resumed from a checkpoint that checkpoint_on_training wrote
-            # from inside consume_sample (worst point recorded, not yet replaced)
+            # from inside consume_sample (worst point recorded, not yet replaced); its one symptom on the
+            # pinned tree is the missing insertion index - any other inconsistency of such a history is
+            # reported under its own name
             k_ = "resumed-from-a-checkpoint-written-inside-the-replace-step"
+        elif r.get("from_mid_iteration"):
+            k_ = f"{k_}[after-resuming-from-a-checkpoint-written-inside-the-replace-step]"
         if k_ not in seen:
             seen.add(k_)
             viol.append((f"kill:{k_}@{key}", f"{k_}: {d} (kills at likelihood calls {kills}, config {cfg})", {"mode": "kill", "cfg": cfg, "kills": list(kills)}))
